@@ -18,6 +18,10 @@ def main(tier, t0):
         tasks += stage_check.tasks_for("C12", tier, scenario="two-thresholds", sizes=_sizes, cfg={"decimals": dec}, structure_filter=few, label="decimals=%d" % dec)
         tasks += stage_check.tasks_for("C12", tier, scenario="single", judge="C12z", cfg={"fixed_threshold": 0.0, "decimals": dec}, sizes=_sizes, structure_filter=few, label="t=0,decimals=%d" % dec)
         tasks += stage_check.tasks_for("C12", tier, scenario="single", judge="C12o", cfg={"fixed_threshold": 1.0, "decimals": dec}, sizes=_sizes, structure_filter=few, label="t=1,decimals=%d" % dec)
+    # two classes sharing a local name (both shapes carry the same label - recorded finding of C05): each of them still only loses constraints
+    from harness import stage
+    tasks += stage_check.tasks_for("C12", tier, scenario="two-thresholds", sizes=lambda t, k: [k + 1] if t == "quick" else [k, k + 1, k + 2], structures=stage.label_clash_structures(), label="label-clash")
+    tasks += stage_check.tasks_for("C12", tier, scenario="single", judge="C12z", cfg={"fixed_threshold": 0.0}, sizes=lambda t, k: [k + 1], structures=stage.label_clash_structures(), label="label-clash,t=0")
     return stage_check.main("C12", tier, t0, tasks=tasks,
                             explanation="two symbolic real thresholds t1 <= t2 inside one path (two fresh Shapers on the same symbolic profile): keys(t2) subset keys(t1), shapes(t2) subset shapes(t1), "
                                         "figures of facts present at both are equal under the path condition; plus threshold 0 fixed: every observed exact-cardinality feature appears as a constraint or a comment. "
